@@ -15,8 +15,8 @@ to the universally quantified statements of the property: no cycle and a bound o
 *every* path, *every* node on a start→end path, the words along *every* path from the start a path
 of the grammar.
 
-Not proved here (tied by the correspondence run and by running `latticeOKB` on the model's output as
-well): that the model `buildLattice` yields `LatticeOK` for every well-formed history table.
+That the model `buildLattice` yields `LatticeOK` (and contains the first-best segmentation) for every
+well-formed history table is proved in `Props/C11Build.lean` (`C11_build_latticeOK`, `C11_build_first_best`).
 -/
 namespace SSVerif.Lattice
 open SSVerif.Nfa
